@@ -151,7 +151,14 @@ def r3_generated_once(chk: Check):
     for nn, c in calls:
         if len(c.args) == 2:
             chk.require([src(a) for a in c.args] == ["self.context", "config"], chk.fkey(sp, "generator gets the walk context"), f"the generator is called with {[src(a) for a in c.args]}; it must receive the walk context (current position) and the configuration", chk.loc(sp.module, c))
-    sets = g.call_nodes(lambda c: src(c) == "config.__xpm__.set(k, value, bypass=True)")
+    from ..dataflow import expansions
+
+    rdsp = ReachingDefs(g)
+    sets = []
+    for nn, c in g.call_nodes(lambda c: isinstance(c.func, ast.Attribute) and c.func.attr == "set" and src(c.func.value) == "config.__xpm__" and len(c.args) == 2 and src(c.args[0]) == "k"):
+        vals = expansions(rdsp, c.args[1], nn, depth=4)
+        if vals and all(".generator(" in v for v in vals) and any(k_.arg == "bypass" and src(k_.value) == "True" for k_ in c.keywords):
+            sets.append(nn)
     chk.require(len(sets) == 1, chk.fkey(sp, "stores the generated value"), "the generated value must be stored in the configuration", chk.loc(sp.module, sp.node))
     pre = tree.func("core.objects", "ConfigInformation.seal.Sealer.preprocess")
     rets = [src(x.value) for x in body_walk(pre.node) if isinstance(x, ast.Return)]
